@@ -845,3 +845,24 @@ fn interrupt_handler_replay() {
         Err(_) => println!("OBSERVED: a loop that runs its work under with-handler was still running 12 s after interrupt() returned: the handler caught the one interruption error and the request was gone"),
     }
 }
+
+// ---------------------------------------------------------------------------------------------
+// E3r replay (C20): a script list of three elements extracted as the host pair (isize, isize) must be refused.
+#[test]
+fn tuple_len_replay() {
+    use steel::rvals::FromSteelVal;
+    let mut engine = Engine::new();
+    let mut bad = Vec::new();
+    for (src, ok) in [("(list 1 2 3)", false), ("(list 1)", false), ("(list)", false), ("(list 1 2)", true)] {
+        let v = engine.run(src.to_string()).unwrap().pop().unwrap();
+        let r = <(isize, isize)>::from_steelval(&v);
+        if r.is_ok() != ok {
+            bad.push(format!("{} extracted as (isize, isize) => {:?}", src, r.map_err(|e| e.to_string())));
+        }
+    }
+    if bad.is_empty() {
+        println!("COMPLETED: only the two-element list converts to a pair");
+    } else {
+        println!("OBSERVED: {}", bad.join("; "));
+    }
+}
